@@ -65,6 +65,18 @@ def _default_signature(f: Dict[str, Any]) -> str:
 
 
 def run_property(modname: str, tier: str, seed: int, jobs: Optional[int] = None) -> int:
+    import shutil
+    import tempfile
+
+    scratch = tempfile.mkdtemp(prefix="vt_run_")
+    os.environ["VT_SCRATCH"] = scratch
+    try:
+        return _run_property(modname, tier, seed, jobs)
+    finally:
+        shutil.rmtree(scratch, ignore_errors=True)
+
+
+def _run_property(modname: str, tier: str, seed: int, jobs: Optional[int] = None) -> int:
     t0 = time.time()
     mod = importlib.import_module(modname)
     pid = mod.ID
